@@ -146,7 +146,7 @@ static void json_str(FILE *f, const char *s)
 enum {
     C_STATES, C_TRANS, C_VALID, C_OBS, C_DISABLED, C_QSKIP, C_REBUILDS, C_LEAKCHK,
     C_PEVAL, C_PCALLS, C_PACC, C_PREJ, C_PEITHER_ACC, C_PEITHER_REJ, C_PMUST_ACC, C_PMUST_REJ,
-    C_PNONTRIV, C_LOPS, C_LOBS, C_N
+    C_PNONTRIV, C_LOPS, C_LOBS, C_LDONE, C_N
 };
 
 struct finding {
@@ -395,8 +395,11 @@ static void mismatch(struct octx *cx, const char *observer, const char *fmt, ...
     va_start(ap, fmt);
     vsnprintf(detail, sizeof detail, fmt, ap);
     va_end(ap);
-    snprintf(sig, sizeof sig, "C19/map/%s", observer);
-    cx->mismatches++;
+    /* only the first failing observer of a transition (a script) is reported: the later ones are, as a
+       rule, consequences of it; observers run in a fixed order, so the choice is deterministic */
+    if (cx->mismatches++ > 0)
+        return;
+    snprintf(sig, sizeof sig, "C19/map/%s/after=%s", observer, cx->after);
     add_finding(sig, 'o', cx->replay, -1, "after operation kind '%s': %s; history: %s",
                 cx->after, detail, cx->replay);
 }
@@ -915,9 +918,11 @@ static struct crashrec CR[MAXCRASH];
 static int NCR;
 static uint64_t total_crashes;
 
+static pid_t SUPERVISOR_PID;     /* set before the first fork: workers and supervisor must agree on the name */
+
 static void slot_err_path(int w, char *out, size_t cap)
 {
-    snprintf(out, cap, "%s/slot-%d-%d.err", CRASHDIR, (int)getpid(), w);
+    snprintf(out, cap, "%s/slot-%d-%d.err", CRASHDIR, (int)SUPERVISOR_PID, w);
 }
 
 /* Reduce a sanitizer report to a stable key: the bug type and the code offsets of the top frames
@@ -1005,7 +1010,7 @@ static void record_crash(int w, int status, const char *shape, const char *opnam
     snprintf(c->replay, sizeof c->replay, "%s", replay);
     c->root = root;
     c->count = 1;
-    snprintf(c->report, sizeof c->report, "%s/crash-%d-%d.txt", CRASHDIR, (int)getpid(), NCR);
+    snprintf(c->report, sizeof c->report, "%s/crash-%d.txt", CRASHDIR, NCR);
     f = fopen(c->report, "w");
     if (f != NULL) {
         fwrite(rep, 1, n, f);
@@ -1047,6 +1052,7 @@ static void run_parallel(worker_fn work, crash_fn on_crash, uint64_t max_crashes
 {
     int alive = 0;
 
+    SUPERVISOR_PID = getpid();
     fflush(stdout);
     fflush(stderr);
     for (int w = 0; w < W; w++) {
@@ -2078,7 +2084,7 @@ static void lobserve(struct xcm_attr_map *a, struct model *ma, struct xcm_attr_m
     SL->c[C_LOBS] += SL->c[C_OBS] - o0;
 }
 
-static int LARGE_N[8], LARGE_STYLE[8], NLARGE;
+static int LARGE_N[16], LARGE_STYLE[16], NLARGE;
 
 static void large_script(int n, int style)
 {
@@ -2212,6 +2218,7 @@ static void large_script(int n, int style)
     size_t after = heap_bytes();
     OBS(&cx, after == base, "leak", "large script n=%d style=%d: %zd bytes still allocated after destroy", n,
         style, (ssize_t)(after - base));
+    SL->c[C_LDONE]++;
     SL->stage = 0;
 }
 
@@ -2240,44 +2247,217 @@ static void large_on_crash(int w, int status, uint64_t *rm, int *rn)
 static int run_large(bool thorough)
 {
     double t0 = now_s();
+    /* style 0: short names k<i>; style 1: 200+ byte names that differ at the very end; style 2: every
+       name a proper prefix of the next */
     static const int nq[] = { 0, 1, 2, 3, 17, 256, 1000 }, nt[] = { 0, 1, 2, 3, 17, 256, 3000 };
+    static const int extra_n[2][2] = { { 150, 120 }, { 400, 300 } };
+    int max_keys = 0;
     NLARGE = 0;
     for (int i = 0; i < 7; i++) {
         LARGE_N[NLARGE] = thorough ? nt[i] : nq[i];
         LARGE_STYLE[NLARGE++] = 0;
     }
-    /* interleave the long-name styles as separate scripts */
-    static int extra_n[2][2] = { { 150, 120 }, { 400, 300 } };
-    int *en = extra_n[thorough ? 1 : 0];
-    int n0 = NLARGE;
-    (void)n0;
-    int LN[16], LS[16], k = 0;
-    for (int i = 0; i < NLARGE; i++) {
-        LN[k] = LARGE_N[i];
-        LS[k++] = 0;
+    for (int st = 1; st <= 2; st++) {
+        LARGE_N[NLARGE] = extra_n[thorough ? 1 : 0][st - 1];
+        LARGE_STYLE[NLARGE++] = st;
     }
-    LN[k] = en[0]; LS[k++] = 1;
-    LN[k] = en[1]; LS[k++] = 2;
-    if (k > 8)
-        k = 8;
-    /* the arrays hold at most 8 scripts: keep the 6 largest short-name sizes + the two long-name ones */
-    NLARGE = 0;
-    for (int i = 0; i < k; i++) {
-        if (k == 8 && i == 0 && 0)
-            continue;
-        if (NLARGE < 8) {
-            LARGE_N[NLARGE] = LN[i];
-            LARGE_STYLE[NLARGE++] = LS[i];
-        }
-    }
+    /* biggest first, so that the longest script does not start last */
+    for (int i = 0; i < NLARGE; i++)
+        for (int j = i + 1; j < NLARGE; j++)
+            if (LARGE_N[j] > LARGE_N[i]) {
+                int t = LARGE_N[i]; LARGE_N[i] = LARGE_N[j]; LARGE_N[j] = t;
+                t = LARGE_STYLE[i]; LARGE_STYLE[i] = LARGE_STYLE[j]; LARGE_STYLE[j] = t;
+            }
+    for (int i = 0; i < NLARGE; i++)
+        if (LARGE_N[i] > max_keys)
+            max_keys = LARGE_N[i];
     run_parallel(large_worker, large_on_crash, 100);
     uint64_t c[C_N] = { 0 };
     for (int w = 0; w < MAXW; w++)
         for (int j = 0; j < C_N; j++)
             c[j] += SH->slot[w].c[j];
-    printf("{\"kind\":\"stats\",\"phase\":\"large\",\"scripts\":%d,\"max_keys\":%d,\"operations\":%" PRIu64
-           ",\"observer_comparisons\":%" PRIu64 ",\"seconds\":%.2f}\n", NLARGE, thorough ? 3000 : 1000, c[C_LOPS],
+    printf("{\"kind\":\"stats\",\"phase\":\"large\",\"scripts\":%d,\"scripts_completed\":%" PRIu64 ",\"max_keys\":%d,\"operations\":%" PRIu64
+           ",\"observer_comparisons\":%" PRIu64 ",\"seconds\":%.2f}\n", NLARGE, c[C_LDONE], max_keys, c[C_LOPS],
            c[C_LOBS], now_s() - t0);
     emit_common("large");
     return 0;
+}
+
+/* ------------------------------------------------------------------------------------------ */
+/* single-case replay (in-process: a sanitizer report goes to stderr, symbolized)               */
+/* ------------------------------------------------------------------------------------------ */
+
+static int print_solo_findings(void)
+{
+    for (int i = 0; i < SL->nf; i++)
+        printf("FINDING %s\n  %s\n", SL->f[i].sig, SL->f[i].text);
+    if (SL->broke[0])
+        printf("BROKE %s\n", SL->broke);
+    printf("%s\n", SL->nf ? "RESULT: violates the oracle" : "RESULT: conforms to the oracle");
+    fflush(stdout);
+    return SL->broke[0] ? 2 : SL->nf ? 1 : 0;
+}
+
+static int replay_ops(const char *spec)
+{
+    SL = &solo_slot;
+    int n = 0, st = 0;
+    if (sscanf(spec, "large:n=%d:style=%d", &n, &st) == 2) {
+        printf("large script n=%d style=%d\n", n, st);
+        fflush(stdout);
+        large_script(n, st);
+        return print_solo_findings();
+    }
+    NM = 1;
+    for (int k = 0; k < NKEYS; k++)
+        NM *= 11;
+    NSTATES = NM * (NM + 1);
+    build_ops();
+
+    char *copy = strdup(spec), *save = NULL;
+    struct xcm_attr_map *M[2];
+    struct model md[2];
+    char hs[1400] = "";
+    size_t hn = 0;
+    size_t base = heap_bytes();
+    fresh_maps(M);
+    m_init(&md[0], true);
+    m_init(&md[1], false);
+    for (char *tok = strtok_r(copy, ",", &save); tok != NULL; tok = strtok_r(NULL, ",", &save)) {
+        int opi = op_by_name(tok);
+        if (opi < 0) {
+            fprintf(stderr, "h_map: unknown operation '%s' (with --keys %d)\n", tok, NKEYS);
+            return 2;
+        }
+        if (!op_enabled(md, &OPS[opi])) {
+            fprintf(stderr, "h_map: operation '%s' is not applicable here\n", tok);
+            return 2;
+        }
+        hn += (size_t)snprintf(hs + hn, sizeof hs - hn, "%s%s", hn ? "," : "", tok);
+        if (hn >= sizeof hs)
+            hn = sizeof hs - 1;
+        struct octx cx = { .replay = hs, .after = op_shape(&OPS[opi]) };
+        printf("op %-24s (%s)\n", tok, op_shape(&OPS[opi]));
+        fflush(stdout);
+        if (!apply_op(&OPS[opi], M, md, true))
+            mismatch(&cx, "get-presence", "the value to alias could not be looked up");
+        observe_all(M, md, &cx);
+        uint32_t succ = state_code(model_map_code(&md[0]), model_map_code(&md[1]));
+        uint32_t isucc = state_code(impl_map_code(M[0]), impl_map_code(M[1]));
+        OBS(&cx, succ == isucc, "canonical-form", "canonical form of the maps (%u) differs from the model's (%u)",
+            isucc, succ);
+        char ds[300];
+        describe_state(succ, ds, sizeof ds);
+        printf("   model: %s   observer mismatches so far: %d\n", ds, SL->nf);
+        fflush(stdout);
+    }
+    xcm_attr_map_destroy(M[0]);
+    xcm_attr_map_destroy(M[1]);
+    m_clear(&md[0]);
+    m_clear(&md[1]);
+    free(copy);
+    size_t after = heap_bytes();
+    if (after != base) {
+        struct octx cx = { .replay = hs, .after = "destroy" };
+        mismatch(&cx, "leak", "%zd bytes still allocated after both maps were destroyed", (ssize_t)(after - base));
+    }
+    return print_solo_findings();
+}
+
+static int one_path(const char *str, int rootsel)
+{
+    SL = &solo_slot;
+    struct ores *o = xmalloc(sizeof *o);
+    size_t len = strlen(str);
+    for (int mode = 0; mode < 2; mode++) {
+        bool root = mode == 0;
+        if (rootsel >= 0 && (rootsel == 1) != root)
+            continue;
+        struct pout out;
+        memset(&out, 0, sizeof out);
+        printf("path \"%s\" (%zu bytes), %s mode\n", str, len, root ? "root" : "relative");
+        fflush(stdout);
+        eval_path(str, len, root, o, &out);
+        printf("   documented syntax: %s (%s), %d components; attr_path_parse: %s", o->verdict == O_ACCEPT ?
+               "must accept" : o->verdict == O_EITHER ? "either" : "must reject", WHY[o->why], o->ncomps,
+               out.accepted ? "accepted" : "rejected");
+        if (out.accepted)
+            printf("; printed as \"%s\"", out.printed);
+        printf("\n");
+        fflush(stdout);
+    }
+    free(o);
+    return print_solo_findings();
+}
+
+static int usage(void)
+{
+    fprintf(stderr,
+            "usage: h_map --bfs [--keys 1|2|3] [--workers W] [--deadline SECONDS] [--crashdir DIR]\n"
+            "       h_map --paths [--maxlen L] [--workers W] [--deadline SECONDS] [--crashdir DIR]\n"
+            "       h_map --large [--thorough] [--workers W] [--crashdir DIR]\n"
+            "       h_map [--keys K] --replay-ops 'op,op,...' | --replay-ops large:n=N:style=S\n"
+            "       h_map [--root 0|1] --one-path 'string'\n");
+    return 2;
+}
+
+int main(int argc, char **argv)
+{
+    enum { M_NONE, M_BFS, M_PATHS, M_LARGE, M_ROPS, M_OPATH } mode = M_NONE;
+    const char *arg = NULL;
+    bool thorough = false;
+    int rootsel = -1;
+    double deadline = 0;
+
+    for (int i = 1; i < argc; i++) {
+        const char *a = argv[i];
+        bool more = i + 1 < argc;
+        if (strcmp(a, "--bfs") == 0)
+            mode = M_BFS;
+        else if (strcmp(a, "--paths") == 0)
+            mode = M_PATHS;
+        else if (strcmp(a, "--large") == 0)
+            mode = M_LARGE;
+        else if (strcmp(a, "--thorough") == 0)
+            thorough = true;
+        else if (strcmp(a, "--replay-ops") == 0 && more) {
+            mode = M_ROPS;
+            arg = argv[++i];
+        } else if (strcmp(a, "--one-path") == 0 && more) {
+            mode = M_OPATH;
+            arg = argv[++i];
+        } else if (strcmp(a, "--keys") == 0 && more)
+            NKEYS = atoi(argv[++i]);
+        else if (strcmp(a, "--maxlen") == 0 && more)
+            MAXLEN = atoi(argv[++i]);
+        else if (strcmp(a, "--workers") == 0 && more)
+            W = atoi(argv[++i]);
+        else if (strcmp(a, "--deadline") == 0 && more)
+            deadline = atof(argv[++i]);
+        else if (strcmp(a, "--crashdir") == 0 && more)
+            CRASHDIR = argv[++i];
+        else if (strcmp(a, "--root") == 0 && more)
+            rootsel = atoi(argv[++i]);
+        else
+            return usage();
+    }
+    if (mode == M_NONE || NKEYS < 1 || NKEYS > MAXKEYS || MAXLEN < 0 || MAXLEN > 8 || W < 1 || W > MAXW)
+        return usage();
+    if (deadline > 0)
+        T_END = now_s() + deadline;
+    init_values();
+
+    if (mode == M_ROPS)
+        return replay_ops(arg);
+    if (mode == M_OPATH)
+        return one_path(arg, rootsel);
+
+    SH = shared_alloc(sizeof *SH);
+    SL = &SH->slot[0];
+    switch (mode) {
+    case M_BFS: return run_bfs();
+    case M_PATHS: return run_paths();
+    case M_LARGE: return run_large(thorough);
+    default: return usage();
+    }
 }
